@@ -19,7 +19,7 @@ import GMGProofs.Lemmas.Concrete10
 Property theorems only; helper lemmas in `GMGProofs/Lemmas/Concrete*.lean`.
 -/
 namespace C10e
-open Cycle Concrete Stencil C10d
+open MGCycle Concrete Stencil C10d
 
 section Ordered
 variable {K : Type} [_root_.Field K] [LinearOrder K] [IsStrictOrderedRing K]
